@@ -22,13 +22,14 @@ import (
 	crhp2 "go.sia.tech/core/rhp/v2"
 	"go.sia.tech/core/types"
 	"go.sia.tech/coreutils/wallet"
+	"go.sia.tech/hostd/v2/host/contracts"
 	"go.sia.tech/hostd/v2/internal/testutil"
 	rpc2 "go.sia.tech/hostd/v2/internal/testutil/rhp/v2"
 	rhp2 "go.sia.tech/hostd/v2/rhp/v2"
 	"go.uber.org/zap"
 )
 
-const vr2CoqHeader = "From HostdBase Require Import Base.\nFrom HostdRoots Require Import Model.\nOpen Scope N_scope."
+const vr2CoqHeader = "From HostdBase Require Import Base.\nFrom HostdRoots Require Import Model Sess.\nOpen Scope N_scope."
 
 type vr2World struct {
 	t         *testing.T
@@ -50,6 +51,13 @@ type vr2World struct {
 	held    types.FileContractID // contract the current session holds
 	slot    int
 	accepted int
+	nonce    uint64
+}
+
+// step records a manager call of the session (coq/Roots/Sess.v: the calls are those of session 1;
+// RPCLock / RPCUnlock are its Lock1 / Unlock1)
+func (w *vr2World) step(op, obs string) {
+	w.em.Step("SOp 1 ("+op+")", "SO ("+obs+")")
 }
 
 func (w *vr2World) rN(r types.Hash256) uint64 {
@@ -112,7 +120,7 @@ func (w *vr2World) dial() {
 // sessionDied: the host ends a session on the first failing RPC and releases its lock.
 func (w *vr2World) sessionDied() {
 	if w.held != (types.FileContractID{}) {
-		w.em.Step(fmt.Sprintf("Unlock1 %d", w.cN(w.held)), "ORes (Ok tt)")
+		w.step(fmt.Sprintf("Unlock1 %d", w.cN(w.held)), "ORes (Ok tt)")
 		w.held = types.FileContractID{}
 	}
 	w.dial()
@@ -135,7 +143,7 @@ func (w *vr2World) look(id types.FileContractID) vr2Entry {
 	if c, err := w.node.Contracts.Contract(id); err == nil {
 		e.found, e.rev, e.fsize, e.mroot, e.to, e.from = true, c.Revision.RevisionNumber, c.Revision.Filesize, c.Revision.FileMerkleRoot, c.RenewedTo, c.RenewedFrom
 	}
-	w.em.Step(fmt.Sprintf("Look1 %d", w.cN(id)), fmt.Sprintf("OLook %s %s %s %d %d %d %s %s", coqBool(e.found), w.coqRoots(e.db),
+	w.step(fmt.Sprintf("Look1 %d", w.cN(id)), fmt.Sprintf("OLook %s %s %s %d %d %d %s %s", coqBool(e.found), w.coqRoots(e.db),
 		w.coqRoots(e.cache), e.rev, e.fsize, w.hN(e.mroot), w.coqOpt(e.to), w.coqOpt(e.from)))
 	if e.found && !w.supers[id] {
 		n := w.cN(id)
@@ -159,7 +167,7 @@ func (w *vr2World) look(id types.FileContractID) vr2Entry {
 }
 
 func (w *vr2World) setHeight() {
-	w.em.Step(fmt.Sprintf("SetHeight %d", w.node.Chain.Tip().Height), "ORes (Ok tt)")
+	w.step(fmt.Sprintf("SetHeight %d", w.node.Chain.Tip().Height), "ORes (Ok tt)")
 }
 
 func (w *vr2World) form(duration uint64) crhp2.ContractRevision {
@@ -177,7 +185,7 @@ func (w *vr2World) form(duration uint64) crhp2.ContractRevision {
 	if err != nil {
 		w.t.Fatal(err)
 	}
-	w.em.Step(fmt.Sprintf("Form1 %d %d %d %d %d", w.cN(rev.ID()), rev.Revision.RevisionNumber, rev.Revision.Filesize,
+	w.step(fmt.Sprintf("Form1 %d %d %d %d %d", w.cN(rev.ID()), rev.Revision.RevisionNumber, rev.Revision.Filesize,
 		w.hN(rev.Revision.FileMerkleRoot), rev.Revision.WindowStart), "ORes (Ok tt)")
 	w.em.Count("rpc:form")
 	w.ref[rev.ID()] = nil
@@ -194,7 +202,7 @@ func (w *vr2World) lock(id types.FileContractID) (crhp2.ContractRevision, bool) 
 			cls = "Err ENotFound"
 		}
 	}
-	w.em.Step(fmt.Sprintf("Lock1 %d", w.cN(id)), "ORes ("+cls+")")
+	w.step(fmt.Sprintf("Lock1 %d", w.cN(id)), "ORes ("+cls+")")
 	w.em.Count("rpc:lock:" + cls)
 	if err != nil {
 		w.sessionDied()
@@ -215,7 +223,7 @@ func (w *vr2World) unlock() {
 	if _, err := rpc2.RPCSettings(w.tr); err != nil {
 		w.t.Fatal(err)
 	}
-	w.em.Step(fmt.Sprintf("Unlock1 %d", w.cN(w.held)), "ORes (Ok tt)")
+	w.step(fmt.Sprintf("Unlock1 %d", w.cN(w.held)), "ORes (Ok tt)")
 	w.held = types.FileContractID{}
 }
 
@@ -267,25 +275,25 @@ func (w *vr2World) write(rev *crhp2.ContractRevision, acts []vr2Act, expectRefus
 	cur := append([]types.Hash256(nil), start...)
 	for _, a := range acts {
 		if a.kind == "append" {
-			w.em.Step(fmt.Sprintf("StoreSec %d", w.rN(a.root)), "ORes (Ok tt)")
+			w.step(fmt.Sprintf("StoreSec %d", w.rN(a.root)), "ORes (Ok tt)")
 		}
 	}
-	w.em.Step(fmt.Sprintf("Open1 %d %d", u, w.cN(id)), "ORes (Ok tt)")
+	w.step(fmt.Sprintf("Open1 %d %d", u, w.cN(id)), "ORes (Ok tt)")
 	for _, a := range acts {
 		switch a.kind {
 		case "append":
 			cur = append(cur, a.root)
-			w.em.Step(fmt.Sprintf("Act %d (Append %d)", u, w.rN(a.root)), fmt.Sprintf("OAct (Ok tt) %s", w.coqRoots(cur)))
+			w.step(fmt.Sprintf("Act %d (Append %d)", u, w.rN(a.root)), fmt.Sprintf("OAct (Ok tt) %s", w.coqRoots(cur)))
 		case "swap":
 			cur[a.a], cur[a.b] = cur[a.b], cur[a.a]
-			w.em.Step(fmt.Sprintf("Act %d (Swap %d %d)", u, a.a, a.b), fmt.Sprintf("OAct (Ok tt) %s", w.coqRoots(cur)))
+			w.step(fmt.Sprintf("Act %d (Swap %d %d)", u, a.a, a.b), fmt.Sprintf("OAct (Ok tt) %s", w.coqRoots(cur)))
 		case "trim":
 			cur = cur[:uint64(len(cur))-a.a]
-			w.em.Step(fmt.Sprintf("Act %d (Trim %d)", u, a.a), fmt.Sprintf("OAct (Ok tt) %s", w.coqRoots(cur)))
+			w.step(fmt.Sprintf("Act %d (Trim %d)", u, a.a), fmt.Sprintf("OAct (Ok tt) %s", w.coqRoots(cur)))
 		}
 	}
-	w.em.Step(fmt.Sprintf("Commit1 %d %d %d %d None", u, rev.Revision.RevisionNumber, rev.Revision.Filesize, w.hN(rev.Revision.FileMerkleRoot)), "ORes (Ok tt)")
-	w.em.Step(fmt.Sprintf("Close1 %d", u), "ORes (Ok tt)")
+	w.step(fmt.Sprintf("Commit1 %d %d %d %d None", u, rev.Revision.RevisionNumber, rev.Revision.Filesize, w.hN(rev.Revision.FileMerkleRoot)), "ORes (Ok tt)")
+	w.step(fmt.Sprintf("Close1 %d", u), "ORes (Ok tt)")
 	if !w.supers[id] {
 		w.ref[id] = cur
 	} else {
@@ -317,9 +325,9 @@ func (w *vr2World) sectorRoots(rev *crhp2.ContractRevision, expectRefusal bool) 
 	}
 	u := w.slot
 	w.slot++
-	w.em.Step(fmt.Sprintf("Open1 %d %d", u, w.cN(id)), "ORes (Ok tt)")
-	w.em.Step(fmt.Sprintf("Commit1 %d %d %d %d None", u, rev.Revision.RevisionNumber, rev.Revision.Filesize, w.hN(rev.Revision.FileMerkleRoot)), "ORes (Ok tt)")
-	w.em.Step(fmt.Sprintf("Close1 %d", u), "ORes (Ok tt)")
+	w.step(fmt.Sprintf("Open1 %d %d", u, w.cN(id)), "ORes (Ok tt)")
+	w.step(fmt.Sprintf("Commit1 %d %d %d %d None", u, rev.Revision.RevisionNumber, rev.Revision.Filesize, w.hN(rev.Revision.FileMerkleRoot)), "ORes (Ok tt)")
+	w.step(fmt.Sprintf("Close1 %d", u), "ORes (Ok tt)")
 	w.look(id)
 	return true
 }
@@ -394,9 +402,10 @@ func (w *vr2World) renew(rev crhp2.ContractRevision, expectRefusal bool) (crhp2.
 	if w.supers[old] {
 		w.em.Monitor("rhp2-session-renews-renewed-predecessor", fmt.Sprintf("contract %d renewed a second time in the session that renewed it", w.cN(old)))
 	}
-	w.em.Step(fmt.Sprintf("Renew1 %d %d %d 0 0 %d %d %d %d %d None", w.cN(old), w.cN(newID), uint64(types.MaxRevisionNumber),
+	// the tail of the handler: the pool accepted the renewal set, then Manager.RenewContract
+	w.em.Step(fmt.Sprintf("SRenewH 1 true (Renew1 %d %d %d 0 0 %d %d %d %d %d None)", w.cN(old), w.cN(newID), uint64(types.MaxRevisionNumber),
 		renewal.Revision.RevisionNumber, renewal.Revision.Filesize, w.hN(renewal.Revision.FileMerkleRoot), renewal.Revision.WindowStart,
-		w.hN(crhp2.MetaRoot(served))), "ORes (Ok tt)")
+		w.hN(crhp2.MetaRoot(served))), "SO (ORes (Ok tt))")
 	if !w.supers[old] {
 		w.ref[newID] = append([]types.Hash256(nil), w.ref[old]...)
 		w.supers[old] = true
@@ -421,11 +430,143 @@ func (w *vr2World) renew(rev crhp2.ContractRevision, expectRefusal bool) (crhp2.
 	return renewal, true
 }
 
+// ---------------------------------------------------------------- renewals the transaction pool rejects
+
+const (
+	vr2BadInputSig = iota // one corrupted renter signature on a funding input
+	vr2DoubleSpend        // the renter's funding inputs are already spent by a transaction in the host's pool
+	vr2MissingParent      // the renter's funding input spends the output of a transaction the host never sees
+	vr2PoolVariants
+)
+
+var vr2PoolVariantName = [...]string{"bad-input-signature", "double-spent-input", "missing-parent"}
+
+func (w *vr2World) contractCount() int {
+	_, n, err := w.node.Store.Contracts(contracts.ContractFilter{})
+	if err != nil {
+		w.t.Fatal(err)
+	}
+	return n
+}
+
+// renewRejected sends an RPCRenewAndClearContract on the locked contract in which every protocol
+// level field is fine (clearing revision, renewal contract, revision signatures) but whose
+// transaction set the host's pool validation rejects.  The renewal failed validation: the
+// predecessor must be exactly as it was, no successor may exist, and (the host ends the session)
+// the contract can be locked and revised again.  Returns the revision of a new lock, false if the
+// contract could not be locked again.
+func (w *vr2World) renewRejected(rev crhp2.ContractRevision, variant int) (crhp2.ContractRevision, bool) {
+	node := w.node
+	old := rev.ID()
+	before := w.look(old)
+	nBefore := w.contractCount()
+	work := vr2Copy(rev)
+	current := work.Revision
+	windowEnd := current.WindowEnd + 5 + uint64(w.rng.Intn(5))
+	collateral := crhp2.ContractRenewalCollateral(current.FileContract, 1<<22, w.settings, node.Chain.Tip().Height, windowEnd)
+	// (the renter payout differs from the one of the valid renewals of this harness: coreutils' chain
+	// manager remembers a rejected set by its transaction ids, which do not cover the signatures, so
+	// an otherwise identical valid renewal would be answered with the remembered error)
+	w.nonce++
+	renewed, basePrice := crhp2.PrepareContractRenewal(current, node.Wallet.Address(), types.Siacoins(10).Add(types.NewCurrency64(w.nonce)), collateral, w.settings, windowEnd)
+	txn := types.Transaction{FileContracts: []types.FileContract{renewed}}
+	cost := crhp2.ContractRenewalCost(node.Chain.TipState(), renewed, w.settings.ContractPrice, types.ZeroCurrency, basePrice)
+	var set []types.Transaction
+	var release []types.Transaction
+	switch variant {
+	case vr2BadInputSig:
+		toSign, err := node.Wallet.FundTransaction(&txn, cost, true)
+		if err != nil {
+			w.t.Fatal(err)
+		}
+		node.Wallet.SignTransaction(&txn, toSign, wallet.ExplicitCoveredFields(txn))
+		k := w.rng.Intn(len(txn.Signatures))
+		sig := append([]byte(nil), txn.Signatures[k].Signature...)
+		sig[w.rng.Intn(len(sig))] ^= 0x20
+		txn.Signatures[k].Signature = sig
+		set = append(node.Chain.UnconfirmedParents(txn), txn)
+		release = []types.Transaction{txn}
+	case vr2DoubleSpend:
+		toSign, err := node.Wallet.FundTransaction(&txn, cost, false)
+		if err != nil {
+			w.t.Fatal(err)
+		}
+		total := cost
+		for _, o := range txn.SiacoinOutputs {
+			total = total.Add(o.Value)
+		}
+		// the same inputs, spent by a transaction that is already in the host's pool
+		conflict := types.Transaction{SiacoinInputs: append([]types.SiacoinInput(nil), txn.SiacoinInputs...),
+			SiacoinOutputs: []types.SiacoinOutput{{Address: node.Wallet.Address(), Value: total}}}
+		node.Wallet.SignTransaction(&conflict, toSign, types.CoveredFields{WholeTransaction: true})
+		if _, err := node.Chain.AddPoolTransactions([]types.Transaction{conflict}); err != nil {
+			w.t.Fatal("setup: the conflicting spend was refused: ", err)
+		}
+		node.Wallet.SignTransaction(&txn, toSign, wallet.ExplicitCoveredFields(txn))
+		set = []types.Transaction{txn}
+	case vr2MissingParent:
+		parent := types.Transaction{SiacoinOutputs: []types.SiacoinOutput{{Address: node.Wallet.Address(), Value: cost}}}
+		toSign, err := node.Wallet.FundTransaction(&parent, cost, false)
+		if err != nil {
+			w.t.Fatal(err)
+		}
+		node.Wallet.SignTransaction(&parent, toSign, types.CoveredFields{WholeTransaction: true})
+		pid := parent.SiacoinOutputID(0)
+		txn.SiacoinInputs = []types.SiacoinInput{{ParentID: pid, UnlockConditions: types.StandardUnlockConditions(w.hostKey.PublicKey())}}
+		node.Wallet.SignTransaction(&txn, []types.Hash256{types.Hash256(pid)}, wallet.ExplicitCoveredFields(txn))
+		set = []types.Transaction{txn} // the parent is neither sent nor in the pool
+		release = []types.Transaction{parent}
+	}
+	served := w.node.Contracts.SectorRoots(old)
+	renewal, _, err := rpc2.RPCRenewContract(w.tr, w.renterKey, &work, set, w.settings.BaseRPCPrice)
+	w.em.Count(fmt.Sprintf("rpc:renew:pool-rejected:%s:refused=%v", vr2PoolVariantName[variant], err != nil))
+	if len(release) > 0 {
+		node.Wallet.ReleaseInputs(release, nil)
+	}
+	if err == nil {
+		w.em.Monitor("malformed-or-failed-renewal-accepted", fmt.Sprintf("renew-and-clear of contract %d with a transaction set the pool cannot accept (%s) was accepted", w.cN(old), vr2PoolVariantName[variant]))
+		w.t.Fatalf("case cannot go on: renewal with %s accepted", vr2PoolVariantName[variant])
+	}
+	if !strings.Contains(err.Error(), "broadcast renewal transaction") {
+		// refused earlier than the pool validation: still a failed renewal, but not the case this is after
+		w.em.Count("rpc:renew:pool-rejected:refused-elsewhere")
+	}
+	// the tail of the handler as the model has it: the pool refuses, RenewContract is never called
+	var fresh types.FileContractID
+	w.rng.Read(fresh[:])
+	w.em.Step(fmt.Sprintf("SRenewH 1 false (Renew1 %d %d %d 0 0 1 %d %d %d %d None)", w.cN(old), w.cN(fresh), uint64(types.MaxRevisionNumber),
+		renewed.Filesize, w.hN(renewed.FileMerkleRoot), renewed.WindowStart, w.hN(crhp2.MetaRoot(served))), "SO (ORes (Err EInvalid))")
+	_ = renewal
+	w.sessionDied()
+	after := w.look(old)
+	if after.found != before.found || !vr2Eq(after.db, before.db) || !vr2Eq(after.cache, before.cache) || after.rev != before.rev ||
+		after.fsize != before.fsize || after.mroot != before.mroot || after.to != before.to || after.from != before.from {
+		w.em.Monitor("failed-renewal-changes-state", fmt.Sprintf("renew-and-clear of contract %d refused (%s: %v) yet the contract changed: before {store %s, manager %s, revision %d, size %d, renewed to %s} after {store %s, manager %s, revision %d, size %d, renewed to %s}",
+			w.cN(old), vr2PoolVariantName[variant], err, w.coqRoots(before.db), w.coqRoots(before.cache), before.rev, before.fsize, w.coqOpt(before.to),
+			w.coqRoots(after.db), w.coqRoots(after.cache), after.rev, after.fsize, w.coqOpt(after.to)))
+	}
+	if n := w.contractCount(); n != nBefore {
+		w.em.Monitor("failed-renewal-changes-state", fmt.Sprintf("renew-and-clear of contract %d refused (%s) yet the host now stores %d contracts instead of %d", w.cN(old), vr2PoolVariantName[variant], n, nBefore))
+	}
+	// fully usable: lockable, revisable
+	again, ok := w.lock(old)
+	if !ok {
+		w.em.Monitor("live-contract-refuses-lock", fmt.Sprintf("contract %d after a renewal the pool rejected (%s)", w.cN(old), vr2PoolVariantName[variant]))
+		return again, false
+	}
+	if w.rng.Intn(2) == 0 {
+		if !w.write(&again, w.genActs(len(w.ref[old])), false) {
+			return again, false
+		}
+	}
+	return again, true
+}
+
 func TestVerifC13RHP2(t *testing.T) {
-	em := newVerifEmitter(t, vr2CoqHeader, "case", "check")
+	em := newVerifEmitter(t, vr2CoqHeader, "scase", "scheck")
 	defer em.Close()
 	n := verifN(12)
-	for id := 0; id < n+1; id++ {
+	for id := 0; id < n+2; id++ {
 		if em.Skip(id) {
 			continue
 		}
@@ -465,7 +606,7 @@ func TestVerifC13RHP2(t *testing.T) {
 
 		em.BeginCase(id, "rhp2 session: write, renew-and-clear, then revise / renew the predecessor in the same session")
 		gens := 1 + rng.Intn(3)
-		if id == 0 {
+		if id == 0 || id == 1 {
 			gens = 2
 		}
 		tip := w.form(150 + uint64(rng.Intn(10)))
@@ -476,7 +617,7 @@ func TestVerifC13RHP2(t *testing.T) {
 				em.Monitor("live-contract-refuses-lock", fmt.Sprintf("contract %d", w.cN(tip.ID())))
 				break
 			}
-			for k := rng.Intn(3); k > 0 || (id == 0 && g == 0 && len(w.ref[rev.ID()]) == 0); k-- {
+			for k := rng.Intn(3); k > 0 || (id <= 1 && g == 0 && len(w.ref[rev.ID()]) == 0); k-- {
 				if !w.write(&rev, w.genActs(len(w.ref[rev.ID()])), false) {
 					break
 				}
@@ -489,6 +630,23 @@ func TestVerifC13RHP2(t *testing.T) {
 				if !w.sectorRoots(&rev, false) {
 					break
 				}
+			}
+			// renewals whose transaction set the pool rejects: case 1 sends every kind, the generated
+			// cases one now and then; the valid renewal that follows must still work
+			var variants []int
+			if id == 1 && g == 0 {
+				variants = []int{vr2BadInputSig, vr2DoubleSpend, vr2MissingParent}
+			} else if id == 1 || (id > 1 && rng.Intn(2) == 0) {
+				variants = []int{rng.Intn(vr2PoolVariants)}
+			}
+			usable := true
+			for _, v := range variants {
+				if rev, usable = w.renewRejected(rev, v); !usable {
+					break
+				}
+			}
+			if !usable {
+				break
 			}
 			stale := vr2Copy(rev) // what the renter (and the host session) held before the renewal
 			renewal, ok := w.renew(rev, false)
